@@ -86,6 +86,8 @@ PROPS["C01"] = dict(
     level_note=_mw_note,
     stages=[dict(name="gen", kind="gen", module="MannWhitney.tla", cfg="MW_gen.cfg",
                  consts=dict(MaxN={"quick": 9, "thorough": 12}, CrossN={"quick": 7, "thorough": 8}, Configs="ConfigsDefault")),
+            dict(name="large", kind="gen", family="mwlarge", module="MWLarge.tla", cfg="MWLarge.cfg", workers=6,
+                      consts=dict(Sizes={"quick": "SizesQuick", "thorough": "SizesThorough"}), timeout={"quick": 600, "thorough": 3000}),
             dict(name="trace", kind="trace", module="MannWhitneyTrace.tla", cfg="MannWhitneyTrace.cfg",
                       consts=dict(DPMaxN={"quick": 12, "thorough": 18}),
                       record_args={"quick": ["-n", 24, "-calls", 5, "-max", 80], "thorough": ["-n", 480, "-calls", 8, "-max", 300]})],
@@ -96,7 +98,9 @@ PROPS["C02"] = dict(
     level_text="TLC enumerates every (N1,N2,T) with N1+N2 <= 9 (thorough 13) and emits the exact count vector (three formulations cross-checked, mirror and reversal laws checked by TLC); the binder evaluates UDist.PMF and CDF at every half-integer from -1 to N1*N2+1 and CDF at off-grid points, for T as given and T=nil when untied, against the exact rationals, plus Bounds, Step, monotonicity",
     level_note=_mw_note,
     stages=[dict(name="gen", kind="gen", module="MannWhitney.tla", cfg="MW_gen.cfg",
-                 consts=dict(MaxN={"quick": 9, "thorough": 13}, CrossN={"quick": 7, "thorough": 8}, Configs="ConfigsDefault"))],
+                 consts=dict(MaxN={"quick": 9, "thorough": 13}, CrossN={"quick": 7, "thorough": 8}, Configs="ConfigsDefault")),
+            dict(name="large", kind="gen", family="mwlarge", module="MWLarge.tla", cfg="MWLarge.cfg", workers=6,
+                      consts=dict(Sizes={"quick": "SizesQuick", "thorough": "SizesThorough"}), timeout={"quick": 600, "thorough": 3000})],
 )
 PROPS["C03"] = dict(
     family="mw", specdir="mw",
@@ -207,6 +211,8 @@ PROPS["C11"] = dict(
         dict(name="trace", kind="trace", module="QuantileCITrace.tla", cfg="QuantileCITrace.cfg",
              record_args={"quick": ["-n", 80, "-max", 12, "-qden", 16, "-levels", 40], "thorough": ["-n", 100000, "-max", 30, "-qden", 40, "-levels", 200]},
              shards={"quick": 8, "thorough": 16}, timeout={"quick": 900, "thorough": 7000}),
+        dict(name="trace16", kind="trace", module="QuantileCITrace.tla", cfg="QuantileCITrace.cfg", tiers=["thorough"],
+             record_args=["-n", 100000, "-max", 13, "-qden", 16, "-levels", 200], shards=16),
         dict(name="traceN", kind="trace", module="QuantileCITrace.cfg".replace(".cfg", ".tla"), cfg="QuantileCITrace.cfg",
              record_args={"quick": ["-n", 40, "-big", "-levels", 40], "thorough": ["-n", 100000, "-big", "-levels", 200]},
              shards={"quick": 4, "thorough": 16}),
